@@ -23,6 +23,7 @@ class FileObj(Value):
         self.closed = False
         self.tag = ctx.fresh("file")
         self.lines_taken = 0  # ghost p: lines handed out so far
+        self.dirty = False  # ghost: data accepted by write() that has not been flushed (text files are buffered)
 
     def __repr__(self):
         return f"FileObj({self.tag}, {self.mode})"
@@ -34,8 +35,13 @@ class FileObj(Value):
         if name in ("__exit__", "close"):
 
             def close(i, s, a, k):
+                # the descriptor is closed in any case; buffered data is written out first, and that can fail
+                # (disk full, I/O error): the failure of a small write surfaces here, not in write()
                 s.closed = True
                 i.ctx.event("close", s.tag)
+                if s.dirty:
+                    s.dirty = False
+                    may_raise(i, "flush-at-close", base=OSError)
                 return None
 
             return BoundMethod(HostModel(close), self)
@@ -44,9 +50,20 @@ class FileObj(Value):
             def write(i, s, a, k):
                 i.ctx.event("write", s.tag)
                 may_raise(i, "write")
+                s.dirty = True
                 return None
 
             return BoundMethod(HostModel(write), self)
+        if name == "flush":
+
+            def flush(i, s, a, k):
+                i.ctx.event("flush", s.tag)
+                if s.dirty:
+                    may_raise(i, "flush", base=OSError)  # a failed flush leaves the data in the buffer
+                    s.dirty = False
+                return None
+
+            return BoundMethod(HostModel(flush), self)
         if name == "name":
             return self.name
         if name == "closed":
